@@ -453,10 +453,13 @@ func (c *Ctx) helperClosure(f *ssa.Function, depth int, stop func(*ssa.Function)
 		}
 		for _, ci := range callsIn(g) {
 			callee := ci.Common().StaticCallee()
-			if callee == nil || callee.Pkg == nil || f.Pkg == nil || callee.Pkg != f.Pkg {
+			if callee == nil {
 				continue
 			}
-			callee = origin(callee)
+			callee = origin(callee) // an instantiation of a generic helper has no package of its own
+			if callee.Pkg == nil || f.Pkg == nil || callee.Pkg != f.Pkg {
+				continue
+			}
 			if stop != nil && stop(callee) {
 				continue
 			}
